@@ -125,6 +125,23 @@ type c18Scenario struct {
 	chunking  bool
 	maxExec   int
 	expectErr bool // the session is expected to end with an error (but to end)
+	opts      string // "" = -rt; "delete-excl": -rt --delete with 40 exclude rules; "a": -a; "c": -rtc; "sender-fails": a source file that cannot be read
+}
+
+func c18Args(opts string) []string {
+	switch opts {
+	case "delete-excl":
+		args := []string{"-rt", "--delete"}
+		for k := 0; k < 40; k++ {
+			args = append(args, fmt.Sprintf("--exclude=no-such-name-%02d", k))
+		}
+		return args
+	case "a":
+		return []string{"-a"}
+	case "c":
+		return []string{"-rtc"}
+	}
+	return []string{"-rt"}
 }
 
 func capName(c int) string {
@@ -135,9 +152,9 @@ func capName(c int) string {
 }
 
 func c18RunScenario(s c18Scenario, trees map[string]c18Tree) core.Result {
-	res := core.Result{Case: fmt.Sprintf("arr=%s tree=%s capacity c2s=%s s2c=%s deviations<=%d chunking=%v", s.arr, s.tree, capName(s.c2s), capName(s.s2c), s.bound, s.chunking)}
+	res := core.Result{Case: fmt.Sprintf("arr=%s tree=%s capacity c2s=%s s2c=%s deviations<=%d chunking=%v opts=%v", s.arr, s.tree, capName(s.c2s), capName(s.s2c), s.bound, s.chunking, c18Args(s.opts)[:min(3, len(c18Args(s.opts)))])}
 	sc := &sched.Scenario{Name: res.Case, CapC2S: s.c2s, CapS2C: s.s2c, Opt: sched.Options{Chunking: s.chunking},
-		Start: c18Start(s.arr, trees[s.tree], []string{"-rt"})}
+		Start: c18Start(s.arr, trees[s.tree], c18Args(s.opts))}
 	var ref string
 	st := sched.Explore(core.T, sc, s.bound, s.maxExec, func(x *sched.Exec) string {
 		if x.Truncated {
@@ -242,6 +259,20 @@ func c18BuildSingle(tier string) core.Source {
 				}
 				cases = append(cases, c18Scenario{arr: arr, tree: "huge-literal", c2s: a, s2c: b, bound: bound, maxExec: 3000})
 				cases = append(cases, c18Scenario{arr: arr, tree: "huge-sum-list", c2s: a, s2c: b, bound: bound, maxExec: 3000})
+			}
+		}
+	}
+	// other option sets change what is exchanged before and after the file data (exclusion list of a deleting push,
+	// per-entry checksums, id lists): the same exploration at the extreme capacities
+	for _, arr := range arrs {
+		for _, opts := range []string{"delete-excl", "a", "c"} {
+			for _, a := range []int{0, 7, sched.Inf} {
+				for _, b := range []int{0, 7, sched.Inf} {
+					if tier != "thorough" && (a == 7 || b == 7) && !(a == 7 && b == 7 && opts == "delete-excl") {
+						continue
+					}
+					cases = append(cases, c18Scenario{arr: arr, tree: "tiny", c2s: a, s2c: b, bound: 1, chunking: false, maxExec: 20000, opts: opts})
+				}
 			}
 		}
 	}
@@ -709,7 +740,7 @@ func init() {
 	core.Register(&core.Prop{
 		ID:    "C18",
 		Level: "model_checking",
-		Rule: "single: every order in which pending transport operations of client and server complete, with <=1 (thorough <=2) deviations (preemptions; 1-byte and half transfers) from the run-to-completion schedule, explored by stateless DFS under a synctest-based controlled scheduler, for arrangements {lib-pull, lib-push, daemon-pull, daemon-push} x capacities {0,1,7,65536,inf}^2 x trees {tiny, many-tiny; huge-literal and huge-sum-list at capacities {0,4096,65536,inf}^2}; two: two sessions on one Server (pull||pull, pull||upload, upload||upload to distinct and to the identical target) interleaved at operation granularity; local: the in-process-server local copy inside a bubble (deadlock = every goroutine durably blocked); race: free-running concurrent pulls and uploads on one Server under the race detector with GOMAXPROCS in {1,2,4,16}; aborted: rounds of a 24 MiB download dropped by the peer mid-file followed at once by 4 concurrent ordinary downloads on the same Server, under the race detector. " +
+		Rule: "single: every order in which pending transport operations of client and server complete, with <=1 (thorough <=2) deviations (preemptions; 1-byte and half transfers) from the run-to-completion schedule, explored by stateless DFS under a synctest-based controlled scheduler, for arrangements {lib-pull, lib-push, daemon-pull, daemon-push} x capacities {0,1,7,65536,inf}^2 x trees {tiny, many-tiny; huge-literal and huge-sum-list at capacities {0,4096,65536,inf}^2}, plus the option sets {-rt --delete with 40 exclude rules, -a, -rtc} at capacities {0,inf}^2 (thorough {0,7,inf}^2); two: two sessions on one Server (pull||pull, pull||upload, upload||upload to distinct and to the identical target) interleaved at operation granularity; local: the in-process-server local copy inside a bubble (deadlock = every goroutine durably blocked); race: free-running concurrent pulls and uploads on one Server under the race detector with GOMAXPROCS in {1,2,4,16}; aborted: rounds of a 24 MiB download dropped by the peer mid-file followed at once by 4 concurrent ordinary downloads on the same Server, under the race detector. " +
 			"oracle: every execution finishes (structural deadlock detection, no timeouts) and its outcome (errors, destination snapshot, no leftover temp files) equals the deviation-free outcome / the solo outcome. states = scheduling points visited, transitions = transport operations executed",
 		Assum: []string{"goroutines blocked in file-system syscalls are not scheduling points (synctest.Wait waits for them)", "the cooperative scheduler hides data races; they are looked for in the separate free-running -race part"},
 		Parts: func(tier string) []core.Part {
